@@ -57,6 +57,9 @@ func verifyFunc(P *Program, name string) (rep *FuncReport) {
 
 var onlyProperty string
 
+// trackOrigins: remember which callee clause each assumed fact came from (govc deps)
+var trackOrigins bool
+
 func verifyFuncMode(P *Program, name string, refute bool) (rep *FuncReport) {
 	fc := P.Contracts.Funcs[name]
 	fn := P.Funcs[name]
@@ -67,6 +70,9 @@ func verifyFuncMode(P *Program, name string, refute bool) (rep *FuncReport) {
 	}
 	rep.Problems = append(rep.Problems, P.Contracts.Broken[name]...)
 	m := newMachine(P, fn, fc)
+	if trackOrigins {
+		m.origins = map[int][]string{}
+	}
 	m.refute = refute
 	m.onlyProp = onlyProperty
 	rep.Mode = m.mode.String()
@@ -228,6 +234,42 @@ func (o *Obligation) scriptMode(qf bool) string {
 		}
 	}
 	return p.Script(asserts, gv)
+}
+
+// coreScript: like scriptMode(true), but facts assumed from callee clauses are named so that an unsat core
+// tells which callee clauses the proof of this obligation used. Ground instances of quantified facts are
+// named inst_k (their source cannot be told apart).
+func (o *Obligation) coreScript() (string, map[string][]string, []string) {
+	p := o.ctx.NewPrinter()
+	var asserts []*Term
+	names := []string{}
+	byName := map[string][]string{}
+	var quantOrigins []string
+	for i, pc := range o.PC {
+		a := o.ctx.PosSkolem(pc)
+		nm := ""
+		if og := o.origins[pc.id]; len(og) > 0 {
+			nm = fmt.Sprintf("og_%d", i)
+			byName[nm] = og
+			if o.ctx.dropForalls(a) != a {
+				quantOrigins = append(quantOrigins, og...)
+			}
+		}
+		asserts = append(asserts, a)
+		names = append(names, nm)
+	}
+	goalT := o.ctx.NegSkolem(o.Goal)
+	insts := o.ctx.instantiate(append(append([]*Term{}, asserts...), goalT))
+	for i, a := range asserts {
+		asserts[i] = o.ctx.dropForalls(a)
+	}
+	for k, in := range insts {
+		asserts = append(asserts, in)
+		names = append(names, fmt.Sprintf("inst_%d", k))
+	}
+	asserts = append(asserts, goalT)
+	names = append(names, "")
+	return p.ScriptNamed(asserts, names), byName, quantOrigins
 }
 
 func solveAll(obls []*Obligation, dir string, timeoutS int, agree bool, seed int, workers int) {
